@@ -90,6 +90,11 @@ pub fn alphabet() -> Vec<Build> {
         Build::Str("listing-directives", ".nolist\nnop\n.list\nnop\n"),
         Build::Str("listmac-directive", ".listmac\n.macro lm\nnop\n.endm\nlm\n"),
         Build::Str("rare-directives", ".pragma AVRPART ADMIN PART_NAME none\n.overlap\n.csegsize 12\nnop\n.nooverlap\n.dd 1\n.dq 2\n.exit\nnop\n"),
+        // builds that are refused late, after code and EEPROM bytes have been produced
+        Build::Str("emits-then-fails-in-pass-2", "ldi r16, 1\nldi r17, 2\n.db 3, 4\nldi r18, 999\nnop\n"),
+        Build::Str("emits-eeprom-then-fails-in-pass-2", "nop\n.eseg\n.db 1, 2, 3\n.dw 70000\n.cseg\nnop\n"),
+        Build::Str("emits-then-lacking-instruction", ".device ATtiny13\nnop\nnop\njmp 0\n"),
+        Build::Str("code-and-eeprom-ok", "ldi r16, 0x11\n.eseg\n.db 0x21, 0x22\n.cseg\nldi r17, 0x12\n"),
         Build::Str("messages-repeated-top-level", ".message \"x\"\n.message \"y\"\n.message \"x\"\n.warning \"z\"\n.message \"w\"\n.message \"v\"\n.message \"y\"\nnop\n"),
     ]
 }
